@@ -132,6 +132,8 @@ class C17(Prop):
         "unescape": dict(requires=["Codec.Util", "Codec.Split", "Codec.Serialize"], itype="tree", model="obs_unescape"),
         "parse_ini": dict(requires=["Codec.Util", "Codec.Ini"], itype="ini_cfg * list pstr", model="obs_parse_ini"),
         "ini_file": dict(requires=["Codec.Util", "Codec.Ini"], itype="list (pstr * scalar)", model="obs_ini_file"),
+        # a file of raw lines (blank lines, comments, junk) through load_ini = parse_ini over the lines of the file
+        "ini_text": dict(requires=["Codec.Util", "Codec.Ini"], itype="ini_cfg * list pstr", model="obs_parse_ini"),
     }
 
     def setup(self):
@@ -309,6 +311,16 @@ class C17(Prop):
             out.append({"stream": "parse_ini", "tag": "rnd:parse_ini",
                         "input": {"lines": lines, "eq": eq, "comments": rng.choice([["#", "//"], ["#", "//"], [";"], []]),
                                   "concat": rng.choice(["\x16", "\x16", "", "+"])}})
+        for c in [c for c in out if c["stream"] == "parse_ini"][-(250 if quick else 5000):]:
+            lines = [l for l in c["input"]["lines"]]
+            if c["input"]["eq"] != "=" or any("\n" in l or "\r" in l for l in lines):
+                continue
+            # blank lines anywhere: at the start, between entries, at the end
+            for _ in range(rng.choice([0, 1, 1, 2])):
+                lines.insert(rng.randint(0, len(lines)), rng.choice(["", "", "", " "]))
+            out.append({"stream": "ini_text", "tag": "rnd:ini_text",
+                        "input": {"lines": lines, "eq": "=", "comments": ["#", "//"], "concat": "\x16",
+                                  "final_eol": rng.random() < 0.7}})
         for _ in range(300 if quick else 6000):
             m, keys = [], set()
             for _ in range(rng.choice([0, 1, 2, 3, 4])):
@@ -347,6 +359,9 @@ class C17(Prop):
         if st == "parse_ini":
             return one(i.get("eq")) and all(isinstance(l, str) and "\n" not in l and "\r" not in l for l in i.get("lines", [None])) \
                 and all(isinstance(c, str) and c for c in i.get("comments", [None])) and isinstance(i.get("concat"), str)
+        if st == "ini_text":
+            return i.get("eq") == "=" and i.get("comments") == ["#", "//"] and i.get("concat") == "\x16" and isinstance(i.get("final_eol"), bool) \
+                and all(isinstance(l, str) and "\n" not in l and "\r" not in l for l in i.get("lines", [None]))
         if st == "ini_file":
             m = i.get("m")
             return isinstance(m, list) and all(isinstance(e, list) and len(e) == 2 and isinstance(e[0], str)
@@ -377,6 +392,12 @@ class C17(Prop):
         if st == "parse_ini":
             return {"ok": ini_canon(n0.parse_ini(list(i["lines"]), equal_tag=i["eq"], comment_tags=tuple(i["comments"]),
                                                  concatenate_sign=i["concat"]))}
+        if st == "ini_text":
+            self.nfile = getattr(self, "nfile", 0) + 1
+            path = os.path.join(self.tmp, "t%d.ini" % (self.nfile % 50))
+            with open(path, "w", encoding="utf-8", newline="") as fh:
+                fh.write("\n".join(i["lines"]) + ("\n" if i["final_eol"] and i["lines"] else ""))
+            return {"ok": ini_canon(n0.load_ini(path))}
         if st == "ini_file":
             self.nfile = getattr(self, "nfile", 0) + 1
             path = os.path.join(self.tmp, "f%d.ini" % (self.nfile % 50))
@@ -405,7 +426,7 @@ class C17(Prop):
             return "(%s, %s)" % (cfg, L.tree(i["t"]))
         if st == "unescape":
             return "(%s)" % L.tree(i["t"])
-        if st == "parse_ini":
+        if st in ("parse_ini", "ini_text"):
             cfg = "{| ic_eq := %s; ic_comments := %s; ic_concat := %s |}" % (chrn(i["eq"]), L.strs(i["comments"]), L.pstr(i["concat"]))
             return "(%s, %s)" % (cfg, L.strs(i["lines"]))
         if st == "ini_file":
@@ -468,7 +489,7 @@ class C17(Prop):
         if want is None:
             return None
         if "raise" in obs:
-            return "%s raised %s" % ("load_ini(save_file(m))" if st == "ini_file" else "parse_ini", obs.get("exc"))
+            return "%s raised %s" % ("load_ini(save_file(m))" if st == "ini_file" else "load_ini(file of the lines)" if st == "ini_text" else "parse_ini", obs.get("exc"))
         got = obs["ok"]
         if got != ini_canon(want):
             return "loaded %r, expected %r" % (L.uncanon(got), want)
@@ -480,7 +501,7 @@ class C17(Prop):
             return self._oracle_ser(case, obs)
         if st == "unescape":
             return None
-        if st in ("parse_ini", "ini_file"):
+        if st in ("parse_ini", "ini_file", "ini_text"):
             return self._oracle_ini(case, obs)
         if "raise" in obs:
             return "%s raised %s" % (st, obs.get("exc"))
